@@ -657,7 +657,23 @@ def run_case(case):
         return repo_tests.run("C15")
     if case["gen"] == "transient":
         return run_transient(case)
-    if case["gen"] == "fista-stall":
-        return run_fista_stall(case)
-    return {"loop": run_loop, "interleave": run_interleave, "app": run_app,
-            "power": run_power}[case["gen"]](case)
+    fn = run_fista_stall if case["gen"] == "fista-stall" else {
+        "loop": run_loop, "interleave": run_interleave, "app": run_app,
+        "power": run_power}[case["gen"]]
+    try:
+        return fn(case)
+    except alg_mon.MonitorAbort:
+        raise
+    except Exception as e:
+        # every generated problem is well posed (no case raises on the unchanged tree): a
+        # solver that raises never reaches done() - the driver loop does not terminate normally
+        inn = e
+        while inn.__cause__ is not None:
+            inn = inn.__cause__
+        import traceback
+        where = traceback.extract_tb(inn.__traceback__)[-1]
+        return violated("%s|%s|raised" % (case["gen"], case.get("alg", case.get("app", ""))),
+                        "the solver raised %s: %s (at %s:%d) on a well-posed problem instead of "
+                        "stopping" % (type(inn).__name__, str(inn)[:150],
+                                      where.filename.split("/")[-1], where.lineno),
+                        dict(case), mech="raised:" + str(case.get("alg", case.get("app", ""))))
